@@ -2,7 +2,7 @@
 From Coq Require Import String Ascii ZArith NArith List Bool Lia.
 From HV Require Import lib.Bytes lib.Obs lib.Monad model.Asgi model.AsgiSpec model.GuardTypes model.HttpStream model.WsStream model.StreamRig
      model.LibH11 model.H11Proto model.WorkerCtx gen.Consts_gen gen.Guards_gen
-     proofs.Stream_proofs proofs.LibH11_proofs proofs.H11_proofs proofs.WorkerCtx_proofs proofs.Serial_proofs proofs.Capped_proofs.
+     proofs.Stream_proofs proofs.LibH11_proofs proofs.H11_proofs proofs.WorkerCtx_proofs proofs.Serial_proofs proofs.Capped_proofs proofs.Closing_proofs.
 Import ListNotations.
 Open Scope N_scope.
 
@@ -70,6 +70,15 @@ Theorem C06_request_maximum_whole_run : forall cfg stream_headers ws_token ws_ex
 Proof. intros. apply capped_run, Capped_init. Qed.
 Print Assumptions C06_request_maximum_whole_run.
 
+(* ... and once keep-alive is off - the client said Connection: close or spoke HTTP/1.0, or a response announced close -
+   no further request is taken on, on any run ("request-after-close" is the ghost note the model emits when a Request is
+   received with keep-alive already off). *)
+Theorem C06_no_request_after_close : forall cfg stream_headers ws_token ws_ext ws_sends sends writes inputs,
+  let outs := concat (map fst (proto_run cfg stream_headers ws_token ws_ext ws_sends (p_init sends writes) inputs)) in
+  In (ONote "h11-contract-violated") outs \/ ~ In (ONote "request-after-close") outs.
+Proof. intros. apply closing_run, KOff_init. Qed.
+Print Assumptions C06_no_request_after_close.
+
 Definition demo_cfg : h11cfg :=
   {| c_http := {| cfg_server_names := []; cfg_ssl := false; cfg_trailers_versions := []; cfg_push_versions := []; cfg_hint_versions := [];
                   cfg_guards := http_app_send_guards |};
@@ -94,6 +103,17 @@ Example C06_serial_nonvacuous :
   has_note "h11-contract-violated" good = false /\ has_note "stream-replaced" good = false /\
   spawns good = 2%nat.
 Proof. vm_compute. repeat split. Qed.
+
+Definition demo_close_req := RH (HRequest (B "GET") (B "/") [(B "host", B "x"); (B "connection", B "close")] (B "1.1")).
+(* the third ghost is live too: after a request that said Connection: close, an oracle handing over another Request
+   (h11 cannot) trips it *)
+Example C06_closing_nonvacuous :
+  let bad := demo_outs [IData [demo_close_req; RH HEndOfMessage];
+                        IApp (Some (MStart (Some 200%Z) [(HB (B "content-length"), HB (B "0"))] false)) [];
+                        IApp (Some (MBody (HB []) false)) [];
+                        IData [demo_req]] in
+  has_note "h11-contract-violated" bad = true /\ has_note "request-after-close" bad = true.
+Proof. vm_compute. split; reflexivity. Qed.
 
 Example C06_nonvacuous :
   (* a 1.1 request, a complete response: both DONE, the cycle restarts; with Connection: close it cannot *)
